@@ -274,34 +274,41 @@ ListenerUp ==
 \* ---------------------------------------------------------- configuration
 (* The configuration changes BETWEEN sends: `via` = "field" is an assignment *)
 (* to the exported fields (License, Servers, Queue.SetCapacity), "apply" is  *)
-(* ApplyConfig, which also drops the connection and dials again iff the      *)
-(* license or the server list changed (one step: no send is in progress, the *)
-(* writer holds nothing that was accepted and could still be delivered).     *)
-(* From this step on every frame built without a per-send license carries    *)
-(* the NEW default license, and the queue refuses by the NEW capacity.       *)
+(* ApplyConfig, which may also drop the connection (`closed`) and dial       *)
+(* (`dial` = "ok" | "fail", else "none").  The property does not say when a  *)
+(* reloaded configuration must re-dial, so that is not prescribed here; what *)
+(* it needs is: the connection is dropped only while no send is in progress  *)
+(* and the writer holds nothing that was accepted and could still be         *)
+(* delivered; a dial succeeds only towards the collector; and from this step *)
+(* on every frame built without a per-send license carries the NEW default   *)
+(* license, and the queue refuses by the NEW capacity.                       *)
 (* Pointing the server list away from the collector is a fault of the        *)
 (* environment (nothing can be delivered while it lasts).                    *)
 Pending == {queue[i].id : i \in 1..Len(queue)} \cup {cur[a].id : a \in {b \in Actor : pc[b] = "locked"}}
 
-Reconfig(via, lic, qcap, srv, dialok) ==
-  LET redial == via = "apply" /\ (lic # conf.deflic \/ srv # conf.srv)
-      away   == srv # Here /\ conf.srv = Here IN
-  /\ via \in {"field", "apply"} /\ conf.gen < MaxCfg
-  /\ redial => /\ lock = None /\ pc[Worker] = "idle"
-               /\ (conn = 0 \/ wbuf = <<>> \/ werr)
+Reconfig(via, lic, qcap, srv, closed, dial) ==
+  LET away == srv # Here /\ conf.srv = Here IN
+  /\ via \in {"field", "apply"} /\ dial \in {"none", "ok", "fail"} /\ conf.gen < MaxCfg
+  /\ (closed \/ dial # "none") => /\ via = "apply"
+                                  /\ lock = None /\ pc[Worker] = "idle"
+  /\ closed => (conn # 0 /\ (wbuf = <<>> \/ werr))
+  /\ dial # "none" => (conn = 0 \/ closed)
   /\ away => faults < MaxFaults
   /\ conf' = [conf EXCEPT !.deflic = lic, !.qcap = qcap, !.srv = srv, !.gen = @ + 1]
   /\ reg' = [x \in DOMAIN reg |-> IF x \in Pending THEN [reg[x] EXCEPT !.lics = @ \cup {lic}] ELSE reg[x]]
   /\ faults' = IF away THEN faults + 1 ELSE faults
-  /\ IF ~redial THEN UNCHANGED <<conn, nconn, net, wire, wbuf, werr, streak>>
-     ELSE IF dialok
-       THEN /\ srv = Here /\ listener = "open"
+  /\ CASE dial = "ok" ->
+            /\ srv = Here /\ listener = "open"
             /\ nconn' = nconn + 1 /\ conn' = nconn + 1
             /\ net' = Append(net, "up") /\ wire' = Append(wire, <<>>)
             /\ wbuf' = <<>> /\ werr' = FALSE /\ streak' = 0
-       ELSE /\ (srv # Here \/ listener = "refusing")
+       [] dial = "fail" ->
+            /\ (srv # Here \/ listener = "refusing")
             /\ conn' = 0 /\ streak' = 0
             /\ UNCHANGED <<nconn, net, wire, wbuf, werr>>
+       [] OTHER ->
+            /\ conn' = IF closed THEN 0 ELSE conn
+            /\ UNCHANGED <<nconn, net, wire, wbuf, werr, streak>>
   /\ UNCHANGED <<lock, pc, cur, fr, listener, queue, okset, errset, res>>
 
 \* ------------------------------------------------------------------- Init
